@@ -65,8 +65,9 @@ class Acc(object):
     def fail(self, signature, case, detail, open_signatures=()):
         """Record a failing case.  `case` must be JSON-serialisable and
         sufficient for props.<id>.replay()."""
-        if signature is not None and signature in open_signatures:
-            self.known[signature] += 1
+        if signature is not None and all(p in open_signatures for p in signature.split('+')):
+            for p in signature.split('+'):
+                self.known[p] += 1
             return
         key = (signature, detail.get('bucket') if isinstance(detail, dict) else None)
         n = sum(1 for f in self.failures if f['key'] == list(key))
